@@ -86,7 +86,28 @@ func hostileKey0(t *rapid.T, pool []string) string {
 	}
 }
 
+// HostileRequest draws a request that is accepted into the log: the two sequence-put shapes that the leader refuses
+// before logging (no partition key, first delta 0) are normalised. HostileRequestRaw keeps them.
 func HostileRequest(t *rapid.T, pool []string, sessions []int64, newTag func() string) (*proto.WriteRequest, bool) {
+	return hostileRequest(t, pool, sessions, newTag, false)
+}
+
+func HostileRequestRaw(t *rapid.T, pool []string, sessions []int64, newTag func() string) (*proto.WriteRequest, bool) {
+	return hostileRequest(t, pool, sessions, newTag, true)
+}
+
+// RefusedBeforeLogging: the leader validates these shapes at the entry of its write path and answers with an error
+// without appending anything.
+func RefusedBeforeLogging(req *proto.WriteRequest) bool {
+	for _, p := range req.Puts {
+		if len(p.SequenceKeyDelta) > 0 && (p.PartitionKey == nil || p.SequenceKeyDelta[0] == 0) {
+			return true
+		}
+	}
+	return false
+}
+
+func hostileRequest(t *rapid.T, pool []string, sessions []int64, newTag func() string, keepRefused bool) (*proto.WriteRequest, bool) {
 	req := &proto.WriteRequest{}
 	unusual := false
 	if rapid.Bool().Draw(t, "shard") {
@@ -116,23 +137,20 @@ func HostileRequest(t *rapid.T, pool []string, sessions []int64, newTag func() s
 			if rapid.Bool().Draw(t, "pk") {
 				p.PartitionKey = pstr(HostileKey(t, pool))
 			}
-			// exclusions by construction for listed known findings (counted)
-			if evid.Known(KfSeqNoPartitionKey) && p.PartitionKey == nil {
-				evid.Excluded("C13", KfSeqNoPartitionKey)
-				p.PartitionKey = pstr("pk")
-			}
-			if evid.Known(KfSeqZeroDelta) && p.SequenceKeyDelta[0] == 0 {
-				evid.Excluded("C13", KfSeqZeroDelta)
-				p.SequenceKeyDelta[0] = 1
+			if !keepRefused {
+				// not part of any log: the leader refuses these before appending (checked by TestC13_Replay)
+				if p.PartitionKey == nil {
+					p.PartitionKey = pstr("pk")
+				}
+				if p.SequenceKeyDelta[0] == 0 {
+					p.SequenceKeyDelta[0] = 1
+				}
 			}
 			if evid.Known(KfSeqFewerDeltas) || evid.Known(KfSeqBadSuffix) {
 				// the two state-dependent classes are avoided by giving every sequence put a prefix that no
 				// other key shares, with a fixed number of deltas per prefix
 				evid.Excluded("C13", KfSeqFewerDeltas+"|"+KfSeqBadSuffix)
 				p.Key = fmt.Sprintf("sq%d", nd)
-				if p.PartitionKey == nil && (p.ExpectedVersionId == nil) && !evid.Known(KfSeqNoPartitionKey) {
-					// keep the (unlisted) missing-partition-key shape reachable
-				}
 			}
 		} else if rapid.IntRange(0, 3).Draw(t, "pkPlain") == 0 {
 			p.PartitionKey = pstr(HostileKey(t, pool))
@@ -202,4 +220,3 @@ func HostileRequest(t *rapid.T, pool []string, sessions []int64, newTag func() s
 	}
 	return req, unusual
 }
-
